@@ -189,6 +189,7 @@ type pSnap struct {
 	MasterKc  int      `json:"master_kc"`
 	Master    []string `json:"master_rules"`
 	Insts     []pInst  `json:"insts"`
+	IndexOK   bool     `json:"index_ok"` // master and every instance: index map consistent with the sorted slice
 	Exist     []bool   `json:"exist"`
 	Number    int      `json:"number"`
 	Sal       []int64  `json:"sal"`
@@ -235,6 +236,26 @@ func expose(v reflect.Value) reflect.Value {
 	return v
 }
 
+// does SortRulesIndexMap map every rule of SortRules to its position (and nothing else)?
+func kcIndexOK(kc reflect.Value) bool {
+	if kc.IsNil() {
+		return true
+	}
+	sr := kc.Elem().FieldByName("SortRules")
+	im := kc.Elem().FieldByName("SortRulesIndexMap")
+	ents := kc.Elem().FieldByName("RuleEntities")
+	if im.Len() != sr.Len() || ents.Len() != sr.Len() {
+		return false
+	}
+	for i := 0; i < sr.Len(); i++ {
+		v := im.MapIndex(sr.Index(i).Elem().FieldByName("RuleName"))
+		if !v.IsValid() || int(v.Int()) != i {
+			return false
+		}
+	}
+	return true
+}
+
 func kcRules(kc reflect.Value) []string {
 	out := []string{}
 	if kc.IsNil() {
@@ -276,6 +297,7 @@ func snapshot(gp *engine.GenginePool, step int, probeNames []string) (s pSnap) {
 		ids[p] = len(ids)
 		return ids[p]
 	}
+	s.IndexOK = true
 	rb := expose(v.FieldByName("ruleBuilder"))
 	if rb.IsNil() {
 		s.MasterNil = true
@@ -284,12 +306,14 @@ func snapshot(gp *engine.GenginePool, step int, probeNames []string) (s pSnap) {
 		kc := rb.Elem().FieldByName("Kc")
 		s.MasterKc = idOf(kc.Pointer())
 		s.Master = kcRules(kc)
+		s.IndexOK = s.IndexOK && kcIndexOK(kc)
 	}
 	rbs := expose(v.FieldByName("rbSlice"))
 	for i := 0; i < rbs.Len(); i++ {
 		r := rbs.Index(i).Elem()
 		kc := r.FieldByName("Kc")
 		in := pInst{Tag: int64(i), KcID: idOf(kc.Pointer()), Rules: kcRules(kc), DcKeys: []string{}}
+		s.IndexOK = s.IndexOK && kcIndexOK(kc)
 		base := expose(r.FieldByName("Dc").Elem().FieldByName("base"))
 		for _, k := range base.MapKeys() {
 			in.DcKeys = append(in.DcKeys, k.String())
